@@ -141,6 +141,10 @@ def _must_assign(ctx: Ctx, f: Func, self_cls: Class, memo: Dict, depth: int = 0,
     cfg = ctx.cfg(f)
     self_name = f.params[0] if f.params else "self"
 
+    from .common import single_env as _single_env
+
+    senv_ = _single_env(f.node)
+
     def gen(n: Node) -> Set[str]:
         out: Set[str] = set()
         if n.ast is None or n.kind not in ("stmt",):
@@ -158,6 +162,28 @@ def _must_assign(ctx: Ctx, f: Func, self_cls: Class, memo: Dict, depth: int = 0,
                     else:
                         out.add(t.attr)
         for x in ast.walk(n.ast):
+            # a bound method picked by a conditional expression (directly, or through a local bound once to it):
+            # whichever is called, the attributes both of them assign are assigned
+            if isinstance(x, ast.Call):
+                fx = x.func
+                if isinstance(fx, ast.Name) and fx.id in senv_:
+                    fx = senv_[fx.id]
+                if isinstance(fx, ast.IfExp):
+                    cands = []
+                    for alt in (fx.body, fx.orelse):
+                        if isinstance(alt, ast.Attribute) and src(alt.value) == self_name:
+                            m_ = self_cls.lookup_method(alt.attr)
+                            if m_ is not None and m_ is not f:
+                                cands.append(m_)
+                    if len(cands) == 2:
+                        sets = [_must_assign(ctx, m_, self_cls, memo, depth + 1, symenv) for m_ in cands]
+                        live = [s_ for s_ in sets if s_ is not NEVER_RETURNS]
+                        if not live:
+                            return NEVER_RETURNS
+                        acc = set(live[0])
+                        for s_ in live[1:]:
+                            acc &= s_
+                        out |= acc
             if isinstance(x, ast.Call) and isinstance(x.func, ast.Attribute):
                 callee = None
                 if src(x.func.value) == self_name:
